@@ -122,6 +122,23 @@ pub fn check(
         add(p, "panic-reached-caller", trunc(m));
     }
 
+    // ---- (round 14, after C10l) positional back ends (the HashMap back end returns a Vec with
+    // one entry per chain) identify a chain by its position: the per-chain results handed to
+    // TraceStorage::finalize must arrive in ascending chain order under every schedule ----
+    {
+        let fin: Option<&RecFinal> = match &obs.fin {
+            Final::Trace(f) | Final::AbortOk(_, f) | Final::WaitErr(_, Some(f)) => Some(f),
+            _ => None,
+        };
+        if let Some(f) = fin {
+            let ids: Vec<usize> = f.chains.iter().map(|c| c.chain).collect();
+            if ids.windows(2).any(|w| w[0] >= w[1]) {
+                let p = if flags.c10 { "C10" } else if flags.c12 { "C12" } else if flags.c13 { "C13" } else { "C11" };
+                add(p, "chain-results-finalized-out-of-chain-order", format!("{ids:?}"));
+            }
+        }
+    }
+
     // ---- progress callback (scenarios that install one): sampling time <= time passed ----
     if scn.callback_ms.is_some() {
         for e in ev {
